@@ -556,6 +556,144 @@ def check_c19(tier, seed):
                                          "the C library side is tied to the specification by C01-C05"])
 
 
+def check_c20(tier, seed):
+    import random
+    v = Verdict("C20", tier, seed)
+    st = new_stage()
+    lib = mkbuild("shipped", hooks=False).build(st)
+    import shutil
+    shutil.copytree(os.path.join(st, "tree", "examples"), os.path.join(lib.dir, "examples"))
+    vplib.sh(["make", "-C", os.path.join(lib.dir, "examples"), "-j4", "COMMON_CFLAGS=-O3 -Wall -Wextra"])
+    ex = os.path.join(lib.dir, "examples")
+    oracle = os.path.join(st, "h_cli")
+    vplib.sh(["gcc", "-O1", "-g", "-Wall"] + lib.incflags() + [os.path.join(VERIF, "harness", "h_cli.c"), lib.lib, "-o", oracle])
+    work = os.path.join(st, "cli"); os.makedirs(work)
+    rnd = random.Random(20260000 + seed)
+    files = {}
+
+    def infile(n):
+        if n not in files:
+            p = os.path.join(work, "in-%d.bin" % n)
+            with open(p, "wb") as f:
+                f.write(bytes(rnd.getrandbits(8) for _ in range(n)))
+            files[n] = p
+        return files[n]
+    cases = []
+    for bs in (8, 16):
+        lens = [0, 1, bs - 1, bs, bs + 1, 1023, 1024, 1025, 2047, 2048, 2049, 3 * 1024 + bs + 1]
+        keylens_plain = [bs, 2 * bs, 3 * bs, bs + 3, 2 * bs + 5]
+        keylens_tw = [bs, 2 * bs, bs + 3]
+        shorts = list(range(1, bs)) if tier == "thorough" else [1, bs // 2, bs - 1]
+        tweaks = [None, bs] + shorts
+        for n in lens:
+            for kl in keylens_plain:
+                for tl in (tweaks if (n in (bs + 1, 1025, 3 * 1024 + bs + 1) or tier == "thorough") else [None, bs]):
+                    cases.append(("ctr", "enc", bs, kl, tl, n))
+                for d in ("enc", "dec"):
+                    cases.append(("ecb", d, bs, kl, None, n))
+            for kl in keylens_tw:
+                for tl in (tweaks if (n in (bs + 1, 1025, 3 * 1024 + bs + 1) or tier == "thorough") else [None, bs]):
+                    for d in ("enc", "dec"):
+                        cases.append(("tweak", d, bs, kl, tl, n))
+    tool = {"ctr": "skinny-ctr", "ecb": "skinny-ecb", "tweak": "skinny-tweak"}
+    samples = []
+
+    def hexbytes(k, salt):
+        r = random.Random(salt * 1000 + k)
+        return "".join("%02x" % r.getrandbits(8) for _ in range(k))
+
+    def one(idx, c):
+        mode, d, bs, kl, tl, n = c
+        key = hexbytes(kl, 7 + idx % 3)
+        tw = None if tl is None else (("ff" * tl) if idx % 4 == 1 else hexbytes(tl, 11))
+        inp = infile(n)
+        out = os.path.join(work, "out-%d.bin" % idx); exp = os.path.join(work, "exp-%d.bin" % idx); back = os.path.join(work, "back-%d.bin" % idx)
+        cmd = [os.path.join(ex, tool[mode]), "-b", str(bs * 8), "-k", key]
+        if tw is not None:
+            cmd += ["-c" if mode == "ctr" else "-t", tw]
+        if d == "dec":
+            cmd += ["-d"]
+        p = vplib.sh(cmd + [inp, out], check=False)
+        desc = "%s %s" % (" ".join(os.path.basename(x) if os.sep in x else x for x in cmd), "in-%d.bin" % n)
+        errs = []
+        if p.returncode != 0:
+            return [("C20/%s/legal-invocation-failed" % tool[mode], "%s: exit %d: %s" % (desc, p.returncode, (p.stdout or "")[:200]))], desc
+        po = vplib.sh([oracle, mode, d, str(bs), key, tw or "-", inp, exp], check=False)
+        if po.returncode != 0:
+            raise EngineError("oracle failed for %s (exit %d)" % (desc, po.returncode))
+        a = open(out, "rb").read(); b = open(exp, "rb").read()
+        if a != b:
+            k = next((i for i in range(min(len(a), len(b))) if a[i] != b[i]), min(len(a), len(b)))
+            errs.append(("C20/%s/output-differs-from-library" % tool[mode], "%s: tool wrote %d bytes, library gives %d bytes, first difference at byte %d" % (desc, len(a), len(b), k)))
+        # round trip
+        cmd2 = [os.path.join(ex, tool[mode]), "-b", str(bs * 8), "-k", key]
+        if tw is not None:
+            cmd2 += ["-c" if mode == "ctr" else "-t", tw]
+        if mode != "ctr" and d == "enc":
+            cmd2 += ["-d"]
+        if mode == "ctr" or d == "enc":
+            p2 = vplib.sh(cmd2 + [out, back], check=False)
+            orig = open(inp, "rb").read()
+            want = orig if mode == "ctr" else orig[:len(orig) - len(orig) % bs]
+            if p2.returncode != 0 or open(back, "rb").read() != want:
+                errs.append(("C20/%s/round-trip" % tool[mode], "%s: running the tool again%s does not restore the %s" % (desc, "" if mode == "ctr" else " with -d", "input" if mode == "ctr" else "whole blocks of the input")))
+        for f_ in (out, exp, back):
+            if os.path.exists(f_):
+                os.remove(f_)
+        return errs, desc
+    for c in cases:
+        infile(c[5])          # inputs are created before the parallel phase
+    infile(100)
+    results = run_parallel([lambda i=i, c=c: one(i, c) for i, c in enumerate(cases)], workers=NCPU)
+    # invalid options: non-zero exit and no output file
+    inv = []
+    good_in = infile(100)
+    k16 = "00112233445566778899aabbccddeeff"
+    menu = [("missing -k", ["-b", "128", good_in, "OUT"]), ("bad hex", ["-k", "zz11", good_in, "OUT"]), ("empty hex", ["-k", "", good_in, "OUT"]),
+            ("key too short", ["-b", "128", "-k", "0011223344", good_in, "OUT"]), ("key too long", ["-b", "64", "-k", k16 * 2, good_in, "OUT"]),
+            ("key too long for 128", ["-b", "128", "-k", k16 * 3 + "00", good_in, "OUT"]),
+            ("counter/tweak longer than the block", ["-b", "64", "-k", k16, "-c", "00112233445566778899", good_in, "OUT"]),
+            ("bad -b", ["-b", "96", "-k", k16, good_in, "OUT"]), ("missing file arguments", ["-k", k16]), ("missing output file", ["-k", k16, good_in]),
+            ("unreadable input", ["-k", k16, os.path.join(work, "does-not-exist"), "OUT"]), ("unknown option", ["-x", "-k", k16, good_in, "OUT"]),
+            ("empty counter/tweak", ["-k", k16, "-c", "", good_in, "OUT"])]
+    ninv = 0
+    for t in ("skinny-ctr", "skinny-ecb", "skinny-tweak"):
+        for name, argv in menu:
+            argv = list(argv)
+            if t == "skinny-tweak":
+                argv = ["-t" if a == "-c" else a for a in argv]
+                if name == "key too long":
+                    argv[3] = k16 + "00"
+                if name == "key too long for 128":
+                    argv[3] = k16 * 2 + "00"
+            outp = os.path.join(work, "inv-out.bin")
+            if os.path.exists(outp):
+                os.remove(outp)
+            argv = [outp if a == "OUT" else a for a in argv]
+            p = vplib.sh([os.path.join(ex, t)] + argv, check=False)
+            ninv += 1
+            if p.returncode == 0:
+                inv.append(("C20/%s/invalid-options-accepted" % t, "%s with %s exited 0" % (t, name)))
+            if os.path.exists(outp):
+                inv.append(("C20/%s/invalid-options-produced-output" % t, "%s with %s created an output file" % (t, name)))
+    nviol = 0
+    for errs, desc in results:
+        for sig, detail in errs:
+            nviol += 1
+            if sum(1 for x in v.new if x["sig"] == sig) < 3:
+                v.new.append({"sig": sig, "case": "", "label": "shipped", "replay": None, "detail": detail})
+    for sig, detail in inv:
+        if sum(1 for x in v.new if x["sig"] == sig) < 3:
+            v.new.append({"sig": sig, "case": "", "label": "shipped", "replay": None, "detail": detail})
+    cov = {"evaluations": len(cases) + ninv, "distinct_nontrivial": len(set(cases)) + ninv,
+           "rule": "the three tools as built by examples/Makefile (shipped flags), run as subprocesses in a scratch directory: file lengths {0,1,B-1,B,B+1,1023,1024,1025,2047,2048,2049,3*1024+B+1} x block size {64,128} x "
+                   "key lengths {B,2B,3B (2B for skinny-tweak), two in-between} x counter/tweak {absent, full, short lengths} x {encrypt, -d}; oracle: a separate program that makes the library calls directly "
+                   "(CTR over the whole file; whole blocks only for ecb/tweak with the per-block tweak increment), byte equality and round trip; plus an invalid-option menu of %d invocations that must exit non-zero "
+                   "and create no output file; distinct = distinct invocations" % ninv,
+           "samples": [d for e_, d in results[:3]] + ["skinny-ctr -b 64 -k <24 bytes> -c <3 bytes> in-3081.bin"], "invalid_invocations": ninv, "builds": [lib.describe()]}
+    return v.finish("exploration", cov, ["I/O errors in the middle of a file are not injected", "file contents are a fixed pseudo-random fill per length (seeded); the ciphers themselves are C01/C05's subject"])
+
+
 def check_c15(tier, seed):
     v = Verdict("C15", tier, seed)
     st = new_stage()
@@ -816,4 +954,5 @@ REGISTRY = {
     "C17": check_c17,
     "C18": check_c18,
     "C19": check_c19,
+    "C20": check_c20,
 }
